@@ -33,7 +33,7 @@ def check_instance_matrix(ctx, stats):
     dec = Decoder(w, utab=utab)
     objs = [dec.ty(t) for t in ts]
     ut = [[int(f)] + vals for f, vals in utab.items()]
-    res = model.run_cases([[21, w.encode(), ut, ts, corpus_enc]])[0]
+    res = model.run_cases([[21, w.encode(), ut, [model.canon_ty(t) for t in ts], corpus_enc]])[0]
     for i, (t, o) in enumerate(zip(ts, objs)):
         for j, v in enumerate(corpus):
             got = py_isinstance(v, o)
